@@ -331,6 +331,15 @@ def _oracle_fresh_draws(ctx, cfg, obj):
                              {'cfg': cfg.name, 'call': 'sample/distinct', 'n': 12, 'b': 4, 'ctx_rows': rows, 'seed': ctx.seed + 181},
                              match={'class': cls, 'symptom': 'repeated-draws'})
                     return
+                if rows is not None:
+                    # two context rows holding the SAME values still get their own draws
+                    c2 = torch.cat([c[:1], c[:1]], 0)
+                    s2 = obj.sample(6, context=c2)
+                    if s2.shape[0] == 2 and torch.equal(s2[0], s2[1]):
+                        ctx.fail('sample(6, context) of %s with two identical context rows returned the same 6 draws for both rows (the rows share their noise)' % cfg.name,
+                                 {'cfg': cfg.name, 'call': 'sample/rows-share-noise', 'n': 6, 'ctx_rows': 2, 'seed': ctx.seed + 181},
+                                 match={'class': cls, 'symptom': 'rows-share-noise'})
+                        return
                 a = obj.sample(5, context=c)
                 a0 = a.clone()
                 b = obj.sample(5, context=c)
